@@ -25,10 +25,14 @@ def table(rnd):
         rows.append(f"| `{m['id']}` | {m['breaks']} | {cells} |")
     n = len(rows)
     tgt = sum(1 for m in metas if m.get("round", 1) == rnd and m.get("detected_by_target_check"))
-    tc = sum(1 for m in metas if m.get("round", 1) == rnd and m.get("target_concrete"))
+    tc = sum(1 for m in metas if m.get("round", 1) == rnd and m["breaks"] in m.get("evaluation", {}).get("concrete", []))
+    tgt = sum(1 for m in metas if m.get("round", 1) == rnd and m["breaks"] in m.get("evaluation", {}).get("fired", []))
+    retried = [m["id"] for m in metas if m.get("round", 1) == rnd and m.get("retried_target_check")]
     head = (f"Final evaluation of round {rnd} (all registered quick checks against each change; machinery of commit"
             f"{'s' if len(commits) > 1 else ''} {', '.join('`' + c + '`' for c in sorted(commits))}): {tgt} of {n} reported by the target "
-            f"property's check, {tc} of them with a concrete failing input.\n\n"
+            f"property's check, {tc} of them with a concrete failing input"
+            + (f" ({', '.join('`' + r + '`' for r in retried)} re-tried with the final machinery: concrete)" if retried else "")
+            + ".\n\n"
             "| change | breaks | checks that report it (bold: with a concrete failing input) |\n|---|---|---|\n")
     return head + "\n".join(rows) + "\n"
 
